@@ -1,7 +1,7 @@
 (* C19 — parts of the statement that were false of the pinned code (both repaired by fix: commits; the
    witnesses stay in the corpus of harness/c19.py) and a boundary of the format. *)
-From Coq Require Import String List Bool ZArith.
-Require Import V.Lib.JTree V.Dosini.Codec V.Dosini.Generated V.Dosini.Model.
+From Coq Require Import String Ascii List Bool ZArith.
+Require Import V.Lib.PyStr V.Lib.JTree V.Dosini.Codec V.Dosini.Generated V.Dosini.Model V.Dosini.Text.
 Import ListNotations.
 Open Scope string_scope.
 
@@ -48,3 +48,71 @@ Proof.
   exists (mkComp [] [("queue", "fast")]). split; [|reflexivity]. vm_compute. discriminate.
 Qed.
 Print Assumptions C19_variable_named_like_option_refuted.
+
+(* ------------------------------------------------------------------ the configparser text layer: every clause of
+   the guard of C19_text_roundtrip is needed.  [via_text t] = the table read from the text written for t.  All
+   witnesses are run on the real FlowConfigParser by harness/c19_text.py (WITNESSES) at every check. *)
+Definition via_text (t : table) : option (entries * table) :=
+  match write_table t with Some x => read_text x | None => None end.
+Definition one (k v : string) : table := [("A", [(k, v)])].
+Definition CR : string := String "013"%char "".
+
+(* a line of a value that starts with a comment prefix is dropped by the reader, silently (F19e, open) *)
+Theorem C19_text_comment_line_refuted :
+  table_ok (one "k" ("a" ++ NL ++ "#b" ++ NL ++ "c")) = false /\
+  via_text (one "k" ("a" ++ NL ++ "#b" ++ NL ++ "c")) = Some ([], one "k" ("a" ++ NL ++ "c")) /\
+  via_text (one "k" ("a" ++ NL ++ ";b")) = Some ([], one "k" "a").
+Proof. vm_compute. repeat split; reflexivity. Qed.
+Print Assumptions C19_text_comment_line_refuted.
+
+(* blanks at the ends of a value, or of a line of a value, are stripped (F19f, open): a leading blank, a trailing
+   newline, a blank before a line break, the indentation of a continuation line *)
+Theorem C19_text_outer_blank_refuted :
+  via_text (one "k" " a") = Some ([], one "k" "a") /\
+  via_text (one "k" ("a" ++ NL)) = Some ([], one "k" "a") /\
+  via_text (one "k" ("a " ++ NL ++ "b")) = Some ([], one "k" ("a" ++ NL ++ "b")) /\
+  via_text (one "k" ("a" ++ NL ++ "  b")) = Some ([], one "k" ("a" ++ NL ++ "b")) /\
+  table_ok (one "k" " a") = false /\ table_ok (one "k" ("a" ++ NL)) = false /\
+  table_ok (one "k" ("a " ++ NL ++ "b")) = false /\ table_ok (one "k" ("a" ++ NL ++ "  b")) = false.
+Proof. vm_compute. repeat split; reflexivity. Qed.
+Print Assumptions C19_text_outer_blank_refuted.
+
+(* a carriage return is a line break for the reader (universal newlines) but is not indented by the writer: the
+   rest of the value becomes a line without delimiter and the file cannot be read (ParsingError) *)
+Theorem C19_text_carriage_return_refuted :
+  table_ok (one "k" ("a" ++ CR ++ "b")) = false /\
+  (exists x, write_table (one "k" ("a" ++ CR ++ "b")) = Some x) /\
+  via_text (one "k" ("a" ++ CR ++ "b")) = None.
+Proof. vm_compute. repeat split; try reflexivity. eexists; reflexivity. Qed.
+Print Assumptions C19_text_carriage_return_refuted.
+
+(* a key with a delimiter is cut at the delimiter; a key starting with a comment prefix makes its entry a
+   comment; a key starting with '[' makes the line a section header; a blank at the end of a key is stripped *)
+Theorem C19_text_key_refuted :
+  via_text (one "a:b" "v") = Some ([], one "a" "b = v") /\
+  via_text (one "a=b" "v") = Some ([], one "a" "b = v") /\
+  via_text (one "#k" "v") = Some ([], [("A", [])]) /\
+  via_text (one ";k" "v") = Some ([], [("A", [])]) /\
+  via_text (one "[k]" "v") = Some ([], [("A", []); ("k", [])]) /\
+  via_text (one "k " "v") = Some ([], one "k" "v") /\
+  forallb (fun k => negb (table_ok (one k "v"))) ["a:b"; "a=b"; "#k"; ";k"; "[k]"; "k "; " k"; ""] = true.
+Proof. vm_compute. repeat split; reflexivity. Qed.
+Print Assumptions C19_text_key_refuted.
+
+(* interpolation is ON when a value is set: a '%' that is neither '%%' nor the start of %(name)s is refused
+   (ValueError; F19c, open) although the reader, which reads raw values, would accept the text *)
+Theorem C19_text_bare_percent_refuted :
+  write_table (one "k" "50% done") = None /\ table_ok (one "k" "50% done") = false /\
+  read_text ("[A]" ++ NL ++ "k = 50% done" ++ NL) = Some ([], one "k" "50% done").
+Proof. vm_compute. repeat split; reflexivity. Qed.
+Print Assumptions C19_text_bare_percent_refuted.
+
+(* section names: DEFAULT cannot be added (ValueError); the entries of a section named '' are written under
+   [DEFAULT] and its own header '[]' cannot be read; two sections cannot share a name *)
+Theorem C19_text_section_name_refuted :
+  write_table [("DEFAULT", [("k", "v")])] = None /\
+  write_table [("", [("k", "v")])] = Some ("[DEFAULT]" ++ NL ++ "k = v" ++ NL ++ NL ++ "[]" ++ NL ++ NL) /\
+  via_text [("", [("k", "v")])] = None /\
+  write_table [("A", []); ("A", [])] = None.
+Proof. vm_compute. repeat split; reflexivity. Qed.
+Print Assumptions C19_text_section_name_refuted.
